@@ -184,6 +184,13 @@ func main() {
 		name := fmt.Sprintf("diag%04d", i)
 		progs = append(progs, &detProg{name: name, class: "diag", src: src, labels: true, path: writeProg("diag", name, src)})
 	}
+	endingBs := endingBPrograms()
+	for _, b := range endingBs {
+		name := "ending_" + strings.ReplaceAll(b.kind, "+", "_with_")
+		b.path = writeProg("ending", name, b.src)
+		b.detProg = &detProg{name: "ending:" + b.kind, class: "ending", src: b.src, path: b.path}
+		progs = append(progs, b.detProg)
+	}
 	incPath := writeProg("state", "c20_inc", incFileSource)
 	mods := stateModules(incPath)
 	rs := e.Rand("state")
@@ -215,6 +222,7 @@ func main() {
 
 	// ------------------------------------------------------------------ monitor 3
 	ps := runPairs(e, mods, cal, statePs, stateDet, progs)
+	endExtra, endSamples, endDistinct := runEndingPairs(e, endingBs)
 
 	// ------------------------------------------------------------------ evidence
 	e.Extra("runs_per_program", K)
@@ -231,6 +239,7 @@ func main() {
 	e.Extra("state_modules_dropped_by_calibration", cal.droppedMods)
 	e.Extra("corpus", corpusNote)
 	e.Extra("pairs", ps.extra)
+	e.Extra("ending_pairs", endExtra)
 	e.Assume(
 		"the adversary is Go's map-iteration randomisation (and anything else that differs between fresh processes); K=21 identical runs leave a 2-way dependence undetected with probability 2^-20",
 		"insertion order is demanded only of sinks that enumerate the container itself; a sink whose output is not a permutation of the container's keys/values is outside the compared domain (counted, not judged)",
@@ -240,9 +249,10 @@ func main() {
 	)
 	samples := det.samples
 	samples = append(samples, ps.samples...)
+	samples = append(samples, endSamples...)
 	e.Finish(lib.Coverage{
 		Evaluations:        evals,
-		DistinctNontrivial: det.distinct.N() + ps.distinct.N(),
+		DistinctNontrivial: det.distinct.N() + ps.distinct.N() + endDistinct.N(),
 		Rule: "evaluations = process executions (CLI runs + worker runs). distinct = source hash of a program all of whose K runs completed and printed something " +
 			"(order programs additionally: >= 1 sink instance decoded and judged) + hash of an (A,B) pair in which A touched >= 1 state module or declares names B declares too, and B's alone baseline was stable",
 		Samples:    samples,
@@ -569,7 +579,11 @@ func reportNondet(p *detProg, outs []runOut, unstableStore map[int]bool, unstabl
 			where = "stdout-outside-labels"
 		}
 		w := describe(what)
-		env.Violation("nondet:"+p.class+":"+where, w, "php", replay(w))
+		key := "nondet:" + p.class + ":" + where
+		if p.class == "ending" {
+			key = "nondet:" + p.name + ":" + where
+		}
+		env.Violation(key, w, "php", replay(w))
 	}
 }
 
